@@ -40,8 +40,11 @@ func (w *W) c08Oracle(in []byte, cfg Config) (judge bool, ok bool, want []*ref.V
 			return false, false, nil, "Parse panicked on a line"
 		}
 		if (err == nil) != (a.Class == ref.MustAccept) {
-			// Parse itself is wrong on this line (C01); the per-line oracle is unusable
-			return false, false, nil, "Parse disagrees with the reference on a line (C01)"
+			// Parse itself is wrong on this line (C01's business). The statement measures ParseND
+			// against Parse per line, so acceptance is still judged (with Parse's own verdict);
+			// the values of this input are not compared
+			w.Count("lines_where_Parse_disagrees_with_the_reference_(C01)", 1)
+			why = "acceptance-only"
 		}
 		if err != nil {
 			ok = false
@@ -50,7 +53,7 @@ func (w *W) c08Oracle(in []byte, cfg Config) (judge bool, ok bool, want []*ref.V
 		_ = pj
 		want = append(want, a.Value)
 	}
-	return true, ok, want, ""
+	return true, ok, want, why
 }
 
 func (w *W) c08Verdict(in []byte, cfg Config, fresh bool) (bad string, judged bool, lines int) {
@@ -72,7 +75,7 @@ func (w *W) c08Verdict(in []byte, cfg Config, fresh bool) (bad string, judged bo
 	if !ok && err == nil {
 		return "some non-blank line is rejected by Parse, but ParseND succeeds", true, len(want)
 	}
-	if err != nil {
+	if err != nil || why == "acceptance-only" {
 		return "", true, len(want)
 	}
 	got, werr := walk.Into(pj)
@@ -189,10 +192,14 @@ func runC08(w *W) {
 	}
 	// pools
 	r := w.rng("c08")
-	valid := []string{`{}`, `[]`, `{"a":1}`, `[1,2,3]`, `{"k":"v","n":[true,false,null]}`, `[{"x":{"y":[]}}]`, `{"s":"line\nbreak \"q\" \\ "}`, `["\\"]`, `["a\\"]`, `{"e":"\\\\"}`, `[1.5e3,-0,18446744073709551615]`, ` {"sp" : 1 } `, "\t[\t1\t]\t"}
+	valid := []string{`[false]`, `[true]`, `[null]`, `{"a":false}`, `[1,true]`, `{}`, `[]`, `{"a":1}`, `[1,2,3]`, `{"k":"v","n":[true,false,null]}`, `[{"x":{"y":[]}}]`, `{"s":"line\nbreak \"q\" \\ "}`, `["\\"]`, `["a\\"]`, `{"e":"\\\\"}`, `[1.5e3,-0,18446744073709551615]`, ` {"sp" : 1 } `, "\t[\t1\t]\t"}
 	invalid := []string{`{`, `}`, `[1,]`, `{"a"}`, `{"a":1}{"b":2}`, `{"a":1} {"b":2}`, `[1] [2]`, `1`, `"s"`, `nul`, `[tru]`, `{"a":01}`, `["\x"]`, `[1`, `1]`, `{"a":`, `1}`, `[`, `]`, `,`, `{"a":1},`, `[1]x`, `x[1]`, `["a` + "\x01" + `"]`,
 		// one outer scope left open although the line ends in a closer
-		`[[1]`, `[{"a":1}`, `{"k":[1,2]`, `{"a":{"b":1}`, `[[]`, `{"a":[]`, `[1]]`, `{"a":1}}`}
+		`[[1]`, `[{"a":1}`, `{"k":[1,2]`, `{"a":{"b":1}`, `[[]`, `{"a":[]`, `[1]]`, `{"a":1}}`,
+		// atoms with a junk byte before the closer: the atom validators take another path within
+		// the last bytes of the whole input than inside it, so the same line can fare
+		// differently as the last line and as an inner one
+		`[falsee]`, `[truee]`, `[nulll]`, `[false0]`, `[true1]`, `[null0]`, `{"a":falsee}`, `{"a":truex}`, `{"a":nullx}`, `[1,falsee]`, `[falsee,1]`, `[false"]`, `[fals]`, `[tru]`, `[nul]`, `[falsE]`}
 	blanks := []string{``, ` `, "\t", "\r", "  \t ", " \r"}
 	for k := 0; k < 40; k++ {
 		rr := r.Split()
@@ -280,7 +287,7 @@ func runC08(w *W) {
 					if l == at {
 						b.WriteString(badLine)
 					} else {
-						b.WriteString(valid[(l*7+bi)%13])
+						b.WriteString(valid[(l*7+bi)%18])
 					}
 					if l < good || (bi+pos)%2 == 0 {
 						b.WriteString("\n")
